@@ -84,9 +84,12 @@ def gen_log(ptag, tier, rng):
                             continue
                         base += 1
                         tag = [None, "tg", ""][base % 3]
-                        out.append(lcase(ptag, m, 0, 1 + 2 * (base % 2), ["thr:0:%d" % thr, st(sev, tag, form, mk_items(pat, base))]))
+                        one = st(sev, tag, form, mk_items(pat, base))
+                        if base % 7 == 3:
+                            one = "stx" + one[2:]     # the statement runs on another thread than the one that configured the filter
+                        out.append(lcase(ptag, m, 0, 1 + 2 * (base % 2), [["thr:0:%d", "thrx:0:%d"][base % 5 == 0] % thr, one]))
     # every filter type x threshold triples (sampled), two members configurations
-    for fid in range(8):
+    for fid in range(10):
         for m in (0, 2, 4):
             for t0, t1, t2 in itertools.product((0, 2, 3, 5), repeat=3):
                 for sev in (0, 1, 2, 3, 4, 5):
@@ -96,8 +99,8 @@ def gen_log(ptag, tier, rng):
                     pat = ITEM_PATTERNS[base % len(ITEM_PATTERNS)]
                     form = forms(len(pat))[base % len(forms(len(pat)))]
                     out.append(lcase(ptag, m, fid, 1 + 2 * (base % 2),
-                                     ["thr:0:%d" % t0, "thr:1:%d" % t1, "thr:2:%d" % t2,
-                                      st(sev, [None, "T"][base % 2], form, mk_items(pat, base))]))
+                                     [["thr:0:%d", "thrx:0:%d"][(base // 4) % 2] % t0, "thr:1:%d" % t1, "thr:2:%d" % t2,
+                                      st(sev, [None, "T", "t"][(base // 4) % 3], form, mk_items(pat, base))]))
     # two named streams open at the same time (same severity, or the next one), interleaved insertions
     for m in (0, 2, 3):
         for thr in (0, 2, 4):
@@ -111,11 +114,11 @@ def gen_log(ptag, tier, rng):
     # histories: several statements, thresholds changing in between
     for _ in range(20000 if big else 2500):
         m = rng.below(6)
-        fid = rng.below(8)
+        fid = rng.below(10)
         ops = []
         for _ in range(1 + rng.below(8)):
             if rng.chance(1, 4):
-                ops.append("thr:%d:%d" % (rng.below(3), rng.below(6)))
+                ops.append("%s:%d:%d" % (rng.choice(["thr", "thr", "thrx"]), rng.below(3), rng.below(6)))
             elif rng.chance(1, 6):
                 sa = rng.below(6)
                 ops.append(ov(sa, rng.choice([None, "a"]), mk_items([rng.choice("sLixL") for _ in range(rng.below(4))], rng.below(1000)),
@@ -125,7 +128,8 @@ def gen_log(ptag, tier, rng):
                 pat = [rng.choice("ssLLicdpM") for _ in range(rng.below(6))]
                 n = len(pat)
                 form = rng.choice(["e", "ue"] + ["n%d" % k for k in range(n + 1)] + ["un%d" % k for k in range(n + 1)])
-                ops.append(st(rng.below(6), rng.choice([None, "t", "tag two", ""]), form, mk_items(pat, rng.below(1000))))
+                one = st(rng.below(6), rng.choice([None, "t", "T", "tag two", ""]), form, mk_items(pat, rng.below(1000)))
+                ops.append(("stx" + one[2:]) if rng.chance(1, 5) else one)
         out.append(lcase(ptag, m, fid, rng.choice([1, 3]), ops))
     return out
 
